@@ -932,12 +932,14 @@ func TestVerif_C05(t *testing.T) {
 	lap("resize")
 	vfC05Compound(s)
 	lap("compound")
+	vfC05Capacity(s)
+	lap("capacity")
 	r.Set("phase_wall_seconds", phases)
 	r.States(int64(len(s.states)))
 	r.Set("files_by_generator", s.byGen)
 	r.Set("finding_key_file_counts", s.keys)
 	r.Set("files_decoded", atomic.LoadInt64(&vfC05Files))
-	r.Rule(fmt.Sprintf("every closed file produced by: (i) all sequences of length <= %d over the union alphabet {create dataset contiguous / chunked+maxdims / in group, create group, write, attribute 4-byte / 120-byte / on group / next numbered, delete attribute, hard link, soft link, resize, dense group} from the start states {empty, /x + /c + /g created (all operations enabled), dataset with 7 attributes, dataset with 9 attributes (dense storage), root group with 9 datasets} under superblock 0, 2 and 3 (a call the writer refuses leaves the model unchanged); (ii) the grid element type x superblock {0,2,3} x {contiguous, single chunk, many chunks with partial edge chunks, gzip, shuffle+gzip, fletcher32, shuffle+gzip+fletcher32} x shapes; (iii) variable-length strings and sequences with length lists that include empty elements and the roll-over to a second heap collection, contiguous and chunked; (iv) all resize/write histories of length <= %d on rank-1 and rank-2 chunked datasets; (v) two compound types x superblock x 2 shapes written raw. Each file is decoded by the independent decoder h5ref and checked: no decoder error; every extent inside the file and below the superblock's end-of-file address; extents pairwise disjoint; every tolerated deviation from the specification is a finding 'spec/<tag>'; decoded tree (paths, kinds, dims, type class/size/sign, attribute names/types/bytes, element bytes) equals the writer-side model. Every case is a distinct history / grid point.", depth, rdepth))
+	r.Rule(fmt.Sprintf("every closed file produced by: (i) all sequences of length <= %d over the union alphabet {create dataset contiguous / chunked+maxdims / in group, create group, write, attribute 4-byte / 120-byte / on group / next numbered, delete attribute, hard link, soft link, resize, dense group} from the start states {empty, /x + /c + /g created (all operations enabled), dataset with 7 attributes, dataset with 9 attributes (dense storage), root group with 9 datasets} under superblock 0, 2 and 3 (a call the writer refuses leaves the model unchanged); (ii) the grid element type x superblock {0,2,3} x {contiguous, single chunk, many chunks with partial edge chunks, gzip, shuffle+gzip, fletcher32, shuffle+gzip+fletcher32} x shapes; (iii) variable-length strings and sequences with length lists that include empty elements and the roll-over to a second heap collection, contiguous and chunked; (iv) all resize/write histories of length <= %d on rank-1 and rank-2 chunked datasets; (v) two compound types x superblock x 2 shapes written raw; (vi) capacity families: a group (root and nested) receiving n in {31,32,33,40} children with names of length {1,6,30,120}, datasets and groups alternating, every creation the writer refuses leaving the model unchanged. Each file is decoded by the independent decoder h5ref and checked: no decoder error; every extent inside the file and below the superblock's end-of-file address; extents pairwise disjoint; every tolerated deviation from the specification is a finding 'spec/<tag>'; decoded tree (paths, kinds, dims, type class/size/sign, attribute names/types/bytes, element bytes) equals the writer-side model. Every case is a distinct history / grid point.", depth, rdepth))
 	r.Assume("h5ref implements the HDF5 File Format Specification v3 faithfully; it is validated on the bundled reference-library corpus (r1_corpus_agreement) and must report no deviation there")
 	r.Assume("a local heap free-list head of 1 and a global-heap free-space object whose size counts or omits its own header are accepted, as the reference library writes them")
 	r.Sample("seq sb2/empty: mkds(/x,i32,[4]); attr(/x,\"big\",s120)")
@@ -945,4 +947,40 @@ func TestVerif_C05(t *testing.T) {
 	r.Sample("vlen vlen-string sb2 vlen-contiguous lens=[4064 2]")
 	r.Sample("seq sb3/resize-rank2: resize(/r,[3 4]); write(/r,p2); resize(/r,[1 2])")
 	_ = filepath.Join
+}
+
+// vfC05Capacity: fixed-capacity structures at and beyond their limits (symbol table node of 32
+// entries, 256-byte name heap): a creation beyond capacity must be refused; whatever was
+// accepted must be in the file, and the file must stay well-formed.
+func vfC05Capacity(s *vfC05Sink) {
+	const abc = "abcdefghijklmnopqrstuvwxyzABCDEFGHIJKLMNOPQRSTUVWXYZ"
+	var cases []vfC05Case
+	for _, sb := range []uint8{2, 0, 3} {
+		for _, parent := range []string{"", "/g"} {
+			for _, nameLen := range []int{1, 6, 30, 120} {
+				for _, n := range []int{31, 32, 33, 40} {
+					var h []vfOp
+					if parent != "" {
+						h = append(h, vfOp{Op: "mkgroup", Path: parent})
+					}
+					for i := 0; i < n; i++ {
+						name := string(abc[i%len(abc)])
+						if nameLen > 1 {
+							name += strings.Repeat("x", nameLen-1)
+						}
+						if i%2 == 0 {
+							h = append(h, vfOp{Op: "mkds", Path: parent + "/" + name, Type: "u8", Dims: []uint64{1}})
+						} else {
+							h = append(h, vfOp{Op: "mkgroup", Path: parent + "/" + name})
+						}
+					}
+					cfg := fmt.Sprintf("sb%d/capacity(parent=%q,n=%d,len=%d)", sb, parent, n, nameLen)
+					c := vfC05SeqCase(cfg, sb, h, 0)
+					c.name = "capacity " + cfg
+					cases = append(cases, c)
+				}
+			}
+		}
+	}
+	vkit.ParallelFor(len(cases), func(i int) { s.exec("capacity", cases[i]) })
 }
